@@ -760,6 +760,7 @@ from ..mutants import Mut  # noqa: E402
 _M = "urwid/event_loop/main_loop.py"
 _P = "urwid/display/_posix_raw_display.py"
 MUTANTS = [
+    Mut("twin-resize-note-parenthesised", _M, "MainLoop._update", "        resized = \"window resize\" in keys\n", "        resized = (\"window resize\" in keys)\n", twin=True),
     Mut("resize-looked-for-after-filter", _M, "MainLoop._update", "        if resized or \"window resize\" in keys:", "        if keys and \"window resize\" in keys:", "ORDER|event_loop.main_loop.MainLoop._update|_update: resize looked for after the input filter only"),
     Mut("resize-looked-for-after-filter-sync", _M, "MainLoop._run_screen_event_loop", "            if resized or \"window resize\" in keys:", "            if keys and \"window resize\" in keys:", "ORDER|event_loop.main_loop.MainLoop._run_screen_event_loop|_run_screen_event_loop: resize looked for after the input filter only"),
     Mut("trio-reraise-from-none", "urwid/event_loop/trio_loop.py", "TrioEventLoop._handle_main_loop_exception", "raise exc.with_traceback(exc.__traceback__) from exc.__cause__", "raise exc.with_traceback(exc.__traceback__) from None", "PASS|event_loop.trio_loop.TrioEventLoop._handle_main_loop_exception|re-raise of exc overwrites __cause__"),
